@@ -57,6 +57,8 @@ def pool(rng, scratch):
     items.append(("cast-error-computed", {"text": H + "float x = 2*1j\nOp(x) | 0\n"}))
     items.append(("cast-error-computed-int", {"text": H + "int k = (1+2j)**2\nOp(k) | 0\n"}))
     items.append(("cast-error-computed-array", {"text": H + "int array A =\n    3*1j, 1\nOp(A) | 0\n"}))
+    items.append(("scalar-of-bare-type-array", {"text": H + "array x = 3\nOp(x) | 0\n"}))
+    items.append(("scalar-of-bare-type-array-big", {"text": H + "int n = 64\narray x = n\nOp(x) | 0\nfloat array A =\n    1, 2\nOp(A) | 1\n"}))
     items.append(("declares-complex", {"text": H + "complex z = 1+2j\nstr s = \"a\"\nbool b = True\nOp(z, s, b) | 0\n"}))
     items.append(("declares-two-floats", {"text": H + "float a1 = 0.5\nfloat a2 = 1.5\nint a3 = 2\nOp(a1, a2, a3) | 0\n"}))
     # includes: a subroutine used by two different main files, and a failing include
@@ -161,7 +163,7 @@ def run(tier, seed):
         # always: all ordered pairs (and some triples) among the entries that involve files / includes / names of includes
         special = [it for it in items if it[0].startswith(("include-", "relative-include-", "op-named-like", "regref-", "empty-brackets-"))]
         num = [it for it in items if it[0].startswith("numeric-")] + [it for it in items if it[0] in ("binds-n", "cast-error", "fails-after-binding-n")] \
-            + [it for it in items if it[0].startswith(("cast-error-computed", "declares-"))]
+            + [it for it in items if it[0].startswith(("cast-error-computed", "declares-", "scalar-of-bare-type"))]
         for a in num:
             for b in num:
                 hists.append([a, b])
@@ -287,6 +289,8 @@ def run(tier, seed):
 
 
 def summary(o):
+    if o.get("working_directory_changed_by_the_load"):
+        return "%s, and the load left the process in another working directory (%s)" % (summary({k: v for k, v in o.items() if k != "working_directory_changed_by_the_load"}), o["working_directory_changed_by_the_load"])
     if o.get("out") == "ok":
         return "ok(%s)" % json.dumps(o["obs"]["target"])[:80]
     return "%s: %s" % (o.get("cls"), (o.get("msg") or "")[:80])
